@@ -45,6 +45,26 @@ TRUSTED_BASE = [
 ]
 
 
+def _broken_theorems(out: str) -> str:
+    """name the theorem / lemma a Coq error message points into: ' in <file>: <Theorem name> (line n)'"""
+    import re
+    names = []
+    for m in re.finditer(r'File "([^"]+\.v)", line (\d+)', out):
+        path, line = m.group(1), int(m.group(2))
+        f = Path(path) if Path(path).is_absolute() else coqrun.COQ / path
+        try:
+            lines = f.read_text().splitlines()[:line]
+        except OSError:
+            continue
+        for l in reversed(lines):
+            k = re.match(r'\s*(Theorem|Lemma|Corollary|Example|Definition|Fixpoint)\s+([A-Za-z0-9_\']+)', l)
+            if k:
+                names.append(f'{f.name}: {k.group(1)} {k.group(2)} (error at line {line})')
+                break
+    names = list(dict.fromkeys(names))
+    return (' in ' + '; '.join(names[:4])) if names else ''
+
+
 def load_known() -> dict:
     if KNOWN.exists():
         return json.loads(KNOWN.read_text())
@@ -134,7 +154,7 @@ def run_check(prop: str, tier: str, seed: int, scratch: Path, replay: str | None
     if gate:
         proof_broken += [f'forbidden vernacular: {g}' for g in gate]
     if not ok:
-        proof_broken.append('coq build failed: ' + out[-1500:])
+        proof_broken.append('coq build failed' + _broken_theorems(out) + ': ' + out[-1500:])
     model_ok = all((coqrun.COQ / t).exists() for t in getattr(mod, 'COQ_TARGETS', []))
     ass = {'theorems': [], 'closed': 0, 'axioms': [], 'prints': 0, 'rc': 1, 'out_tail': ''}
     if ok:
